@@ -21,8 +21,8 @@ bool op_assign() {
     bool resized = (s->nr != d->nr || s->nc != d->nc);
     // input class: Matrix_ handle whose storage is 1-d (deep copy of a row/column shaped source)
     // reshaped to a genuinely 2-d size; generated rarely and keyed separately
-    bool reshape1d = resized && d->kind == MO && s->nr > 1 && s->nc > 1 && lib1d(*d);
-    if (reshape1d && !r.coin(0.15)) return false;
+    bool reshape1d = resized && d->kind == MO && s->nr != 1 && s->nc != 1 && lib1d(*d);
+    if (reshape1d && !(allowReshape1d && r.coin(0.3))) return false;
     std::vector<C> L = logicalC(*s);
     std::string st = tag(*s);
     if (resized) destroyDependents(*d);
@@ -116,8 +116,8 @@ bool op_resize() {
     if (v == 3) { if (d->fixR > 1 || d->fixC > 1 || (d->fixR == 1 && d->fixC == 1)) v = 0; }
     if (v == 3) { m = d->fixR == 1 ? 1 : 0; n = d->fixC == 1 ? 1 : 0; if (shapeOf(d->kind) == 0 && d->fixR < 0 && d->fixC < 0) { m = 0; n = 0; } }
     if (v == 3 && (!d->canClear || (shapeOf(d->kind) == 0 && (d->fixR >= 0 || d->fixC >= 0)))) v = 0;   // Matrix_ handles with an inherited 1-d commitment: clear() result not modelled
-    bool reshape1d = v != 3 && d->kind == MO && m > 1 && n > 1 && lib1d(*d);
-    if (reshape1d && !r.coin(0.15)) { if (r.coin()) m = 1; else n = 1; reshape1d = false; }
+    bool reshape1d = v != 3 && d->kind == MO && m != 1 && n != 1 && lib1d(*d);
+    if (reshape1d && !(allowReshape1d && r.coin(0.3))) { if (d->fixR < 0 && (d->fixC >= 0 || r.coin())) m = 1; else if (d->fixC < 0) n = 1; reshape1d = (m != 1 && n != 1); if (reshape1d) return false; }
     bool same = (m == d->nr && n == d->nc);
     if (!same) destroyDependents(*d);
     static const char* nm[] = {"resize", "resizeKeep", "resizeKeep", "clear"};
